@@ -11,11 +11,11 @@ cd $wt
 demo=$(ls $src | grep -E '^demo' | head -1)
 cp $src/$demo $wt/$demo
 if [[ "$demo" == *test* ]]; then democmd="/venv/bin/python -m pytest -q -p no:cacheprovider $demo"; else democmd="/venv/bin/python $demo"; fi
-timeout 900 $democmd > demo_clean.log 2>&1; rc_clean=$?
+PYTHONPATH=$wt timeout 1800 $democmd > demo_clean.log 2>&1; rc_clean=$?
 git apply $src/patch.diff || { echo "{\"id\": \"$id\", \"applies\": false}" > $src/confirm.json; cd /; git -C /repo worktree remove --force $wt; exit 1; }
 /venv/bin/python -m compileall -q avocado_i2n > /dev/null 2>&1; rc_compile=$?
-timeout 900 $democmd > demo_patched.log 2>&1; rc_patched=$?
-timeout 1500 /venv/bin/python -m pytest -q -p no:cacheprovider --timeout=900 -n 12 selftests/isolation > suite.log 2>&1
+PYTHONPATH=$wt timeout 1800 $democmd > demo_patched.log 2>&1; rc_patched=$?
+PYTHONPATH=$wt timeout 3600 /venv/bin/python -m pytest -q -p no:cacheprovider --timeout=1800 -n 8 selftests/isolation > suite.log 2>&1
 summary=$(tail -1 suite.log)
 passed=$(echo "$summary" | grep -oE '[0-9]+ passed' | grep -oE '[0-9]+')
 failed=$(echo "$summary" | grep -oE '[0-9]+ failed' | grep -oE '[0-9]+')
